@@ -10,6 +10,8 @@
        same dimensions (same names, same ids, same number of offsets per file).
    The process heap itself (allocator, Vec growth, brotli's encoder/decoder state) is not
    modelled; it is measured by the correspondence job c15. *)
+From MLA Require Import Limit FooterSize.
+From Coq Require Import Permutation.
 From MLA Require Import Base Stream EncLayer Blocks Writer Reader Repair Total TotalEnc.
 From Coq Require Import ZifyBool ZifyNat ZifyN.
 Open Scope N_scope.
@@ -17,6 +19,7 @@ Open Scope N_scope.
 (* ---------- reading side: buffers bounded by constants ---------- *)
 
 Section Bounded.
+  Context {LIM : Limit}.
   Variable S : Stream.
   Hypothesis rd_le : forall s n s' d, rd S s n = (s', Ok d) -> len d <= n.
 
@@ -43,6 +46,7 @@ End Bounded.
    invariant by ANY sequence of reads (normal or fail-safe, either mode) and seeks, over an
    arbitrary inner stream: at most CHUNK bytes *)
 Section EncCache.
+  Context {LIM : Limit}.
   Variables CHUNK TAG : N.
   Variable ks : N -> N -> N.
   Variable tagc : N -> bytes -> bytes.
@@ -89,10 +93,14 @@ End EncCache.
 (* ---------- writing side: the tables depend on the shape of the calls only ---------- *)
 
 Section Tables.
+  Context {LIM : Limit}.
   Variable FNMAX : N.
   Variables T_START T_CONTENT T_EOA T_EOF : N.
   Variable H : bytes -> bytes.
   Variable order : footer -> footer.
+  (* the iteration order of the HashMap: what bincode charges for the footer (the limit arm of
+     finalize) does not depend on it *)
+  Hypothesis Horder : forall f, Permutation (order f) f.
   Notation wstep := (wstep FNMAX T_START T_CONTENT T_EOA T_EOF H order).
 
   (* two calls of the same shape: same kind, same file / name; appends both non-empty and both
@@ -238,6 +246,17 @@ Section Tables.
       destruct (w_open s1) as [|x l]; destruct (w_open s2) as [|y l2];
         try (exfalso; destruct Hop as [A B]; first [discriminate (A eq_refl) | discriminate (B eq_refl)]);
         [|split; [exact E|reflexivity]].
+      cbv zeta.
+      assert (Esz : len (ser_footer_map (order (w_footer s1))) = len (ser_footer_map (order (w_footer s2)))).
+      { rewrite (len_ser_footer_map_perm _ _ (Horder (w_footer s1))), (len_ser_footer_map_perm _ _ (Horder (w_footer s2))).
+        apply w_footer_size_dims; [exact Efi | exact Ei]. }
+      rewrite Esz.
+      destruct (lim <? len (ser_footer_map (order (w_footer s2)))).
+      { cbn [fst snd]. split; [|reflexivity]. unfold dims, w_finalized. cbn [w_final w_open w_files w_ids w_next w_cur map].
+        rewrite Efi, Ei, En, Ec. reflexivity. }
+      destruct (2 ^ 32 <=? len (ser_footer_map (order (w_footer s2)))).
+      { cbn [fst snd]. split; [|reflexivity]. unfold dims, w_finalized. cbn [w_final w_open w_files w_ids w_next w_cur map].
+        rewrite Efi, Ei, En, Ec. reflexivity. }
       cbn [fst snd]. split; [|reflexivity]. unfold dims. cbn [w_final w_open w_files w_ids w_next w_cur map].
       rewrite Efi, Ei, En, Ec. reflexivity.
   Qed.
